@@ -1,6 +1,7 @@
 package rules
 
 import (
+	"go/types"
 	"go/token"
 	"sort"
 	"strings"
@@ -177,6 +178,26 @@ func checkC15(c *Ctx) {
 		}
 	}
 
+	// ---- export-own-state ------------------------------------------------------------------------
+	// what is exported is the module's own store: an export that consults staking or bank state (is the validator
+	// still bonded? does the account still exist?) leaves out entries the running chain still holds
+	r.Min("C15.export-own-state", 1)
+	nForeign := 0
+	for _, fn := range sortedFuncs(expReach) {
+		if p.L.IsGenerated(fn.Pos()) || !p.IsModule(fn) {
+			continue
+		}
+		ana.Calls(fn, func(site ssa.CallInstruction, d ana.CalleeDesc) {
+			if d.Iface && (d.Recv == "StakingKeeper" || d.Recv == "BankKeeper" || d.Recv == "AccountKeeper") {
+				nForeign++
+				r.Bad("C15.export-own-state", fname(fn)+":"+d.Recv+"."+d.Name, c.pos(site.(ssa.Instruction)), "code reached by ExportGenesis calls "+d.Recv+"."+d.Name+": the exported state then depends on another module's state at export time, and entries filtered by it are missing after the restart")
+			}
+		})
+	}
+	if nForeign == 0 {
+		r.Ok("C15.export-own-state", "all", "-", sprintf("no staking / bank / account keeper call in %d functions reachable from ExportGenesis", len(expReach)))
+	}
+
 	// ---- faithful-import -------------------------------------------------------------------------
 	var imp *ssa.Function
 	for _, f := range roots.InitGen {
@@ -242,11 +263,87 @@ func checkC15(c *Ctx) {
 
 	// (4) imports are unconditional: a write that restores an exported field may depend only on the range
 	// loops it sits in, on a nil test of its own source field, and on validation panics
-	c.checkUnconditionalImport(imp)
+	c.checkUnconditionalImport(imp, 8)
+	for _, f := range roots.InitGen {
+		if inPkg(f, "oracle/keeper") {
+			c.checkUnconditionalImport(f, 2)
+		}
+	}
+	// (5) no cross-wiring: when a setter called by the import rebuilds a stored struct T from scalar arguments,
+	// the value placed in T.X must not be another field T.Y of the imported T
+	for _, f := range roots.InitGen {
+		c.checkImportCrossWiring(f)
+	}
+}
+
+// leafField names the struct type and field a provenance leaf value was read from.
+func leafField(v ssa.Value) (*types.Named, string) {
+	switch x := v.(type) {
+	case *ssa.Field:
+		if st := structOf(x.X.Type()); st != nil {
+			return ana.NamedOf(x.X.Type()), st.Field(x.Field).Name()
+		}
+	case *ssa.UnOp:
+		if fa, ok := x.X.(*ssa.FieldAddr); ok {
+			if st := structOf(fa.X.Type()); st != nil {
+				return ana.NamedOf(fa.X.Type()), st.Field(fa.Field).Name()
+			}
+		}
+	case *ssa.FieldAddr:
+		if st := structOf(x.X.Type()); st != nil {
+			return ana.NamedOf(x.X.Type()), st.Field(x.Field).Name()
+		}
+	}
+	return nil, ""
+}
+
+func (c *Ctx) checkImportCrossWiring(imp *ssa.Function) {
+	p, r := c.P, c.R
+	ana.Calls(imp, func(site ssa.CallInstruction, d ana.CalleeDesc) {
+		for _, callee := range p.Callees(site) {
+			writes := false
+			for _, e := range c.Effects(callee) {
+				if e.Kind == "store" && e.Op == "Set" {
+					writes = true
+				}
+			}
+			if !writes || callee.Blocks == nil {
+				continue
+			}
+			for _, a := range allocsIn(callee) {
+				tn := ana.NamedOf(a.Type())
+				if tn == nil || structOf(a.Type()) == nil {
+					continue
+				}
+				for fld, vals := range ana.FieldStores(a) {
+					for _, v := range vals {
+						l := p.LeavesAt(v, site, ana.PVOpt{})
+						same, other := false, ""
+						for _, lv := range l.Vals {
+							for _, x := range lv {
+								if n, f := leafField(x); n != nil && n.Obj() == tn.Obj() {
+									if f == fld {
+										same = true
+									} else {
+										other = f
+									}
+								}
+							}
+						}
+						if other != "" && !same {
+							r.Bad("C15.faithful-import", "cross-wired:"+tn.Obj().Name()+"."+fld, c.pos(site.(ssa.Instruction)), sprintf("the import restores %s.%s from the exported %s.%s: after a restart the module continues from a value the original chain never had in that place", tn.Obj().Name(), fld, tn.Obj().Name(), other))
+						} else if same {
+							r.Ok("C15.faithful-import", "cross-wired:"+tn.Obj().Name()+"."+fld, c.pos(site.(ssa.Instruction)), sprintf("%s.%s restored from the exported %s.%s", tn.Obj().Name(), fld, tn.Obj().Name(), fld))
+						}
+					}
+				}
+			}
+		}
+	})
 }
 
 // checkUnconditionalImport implements clause (4) of C15.faithful-import.
-func (c *Ctx) checkUnconditionalImport(imp *ssa.Function) {
+func (c *Ctx) checkUnconditionalImport(imp *ssa.Function, minN int) {
 	p, r := c.P, c.R
 	// DAG reachability (back edges removed)
 	isBack := func(from, to *ssa.BasicBlock) bool { return to.Dominates(from) }
@@ -400,7 +497,7 @@ func (c *Ctx) checkUnconditionalImport(imp *ssa.Function) {
 		r.Check(bad == "", "C15.faithful-import", "unconditional:"+prefix+"<-"+strings.Join(fl, "+"), c.pos(in), "restored unconditionally (range loops, own nil test and validation panics only)",
 			"the import of "+strings.Join(fl, "+")+" into "+prefix+" depends on the condition at "+bad+": for some exported states the value is silently not restored")
 	})
-	if n < 8 {
-		r.Undecided("C15.faithful-import", "unconditional", p.Pos(imp.Pos()), sprintf("only %d import writes recognised, expected at least 8", n))
+	if n < minN {
+		r.Undecided("C15.faithful-import", "unconditional:"+fname(imp), p.Pos(imp.Pos()), sprintf("only %d import writes recognised, expected at least %d", n, minN))
 	}
 }
